@@ -397,6 +397,7 @@ def run(chk, repo, tier):
                               line=c.lineno, witness='the task receives the workflow result (or a cycle error)')
     run_more(chk, repo)
     run_w8(chk, repo)
+    run_w9(chk, repo)
 
 
 def run_more(chk, repo):
@@ -479,3 +480,31 @@ def run_w8(chk, repo):
                           'task of the caller resolves to the caller\'s stored result', line=k.lineno,
                           witness='distributed dispatcher, a task that calls context.call_workflow with a sub-workflow whose '
                                   'task names and indices coincide with the outer workflow: the sub tasks are never run')
+
+
+def run_w9(chk, repo):
+    """composition keeps the left operand's tasks first (the order in which tasks entered the workflow decides the order of
+    predecessor results)"""
+    W9 = chk.rule('W9', 'workflow composition: nx.compose(<own graph>, <other graph>) - the receiver\'s tasks enter first', floor=1)
+    wm = repo.module(WF)
+    n = 0
+    for c_ in dict.values(wm.classes):
+        for name, f in c_.methods.items():
+            other = [p for p in f.params if p != 'self']
+            for c in calls_in(f.node):
+                if (dotted(c.func) or '').endswith('compose') and len(c.args) == 2:
+                    a0, a1 = unparse(c.args[0]), unparse(c.args[1])
+                    if not (a0.startswith('self') or a1.startswith('self')):
+                        continue
+                    n += 1
+                    ok = a0.startswith('self') and not a1.startswith('self')
+                    chk.instance(W9, f'{c_.name}.{name}: {unparse(c)}: own graph first {ok}')
+                    if not ok:
+                        chk.violation(W9, wm.rel, f.qualname, unparse(c),
+                                      'the other workflow\'s tasks enter the composed graph first: a later task that joins both '
+                                      'halves receives its predecessor results in the other order', line=c.lineno,
+                                      witness='(a + b) followed by a non-commutative join task: it gets q(B)|p(A) instead of '
+                                              'p(A)|q(B)')
+            del other
+    if n < 1:
+        raise AnalysisError('W9: no graph composition found in workflow.py')
